@@ -143,6 +143,7 @@ Init == /\ c \in Contracts /\ w \in Presets(c)
 (* refused by validation); a terminated instance ends the scenario                            *)
 Next == \E op \in OpsOf[c] :
           /\ (s.life = "live" \/ (s.life = "none" /\ op.m = "deploy"))
+          /\ (op.m = "longwait" => s.stage = 1)          \* (the long wait is only worth its > 30000 blocks where it leads somewhere)
           /\ s' = Step(c, s, op)
           /\ hist' = Append(hist, op @@ [good |-> (Step(c, s, op) # s)])
           /\ UNCHANGED <<c, w>>
